@@ -221,10 +221,32 @@ theorem useWallet_congr (P : PStore) (V1 V2 : PVol) (w : Wid) (h : VEq V1 V2) :
       · simp [hb]; exact ⟨h.1, rfl⟩
       · simp [hb]
 
-/-- Start on a wallet that is caught up with the node: no fast-forward, no catch-up, only the re-queue -/
-theorem start_quiet (env : Env) (n : Nat) (P : PStore) (V : PVol) (hq : env.node.tipHeight = P.led.syncedTo) :
-    start env n P V = ⟨true, P, { V with tasks := requeue P }, 0⟩ := by
-  unfold start
+/-- Start's resync step on a freshly booted wallet whose synced block is still the node's block at that
+    height: nothing to do -/
+theorem resync_boot_noop (env : Env) (n : Nat) (P : PStore) (ht : tipOnB env P = true)
+    (hle : P.led.syncedTo ≤ env.node.tipHeight) :
+    resync env n P (bootVol P) = ⟨true, P, bootVol P, 0⟩ := by
+  unfold resync
+  by_cases h0 : P.led.syncedTo = 0
+  · simp [h0]
+  · have hmin : min P.led.syncedTo env.node.tipHeight = P.led.syncedTo := Nat.min_eq_left hle
+    unfold tipOnB at ht
+    simp only [h0, if_false, hmin]
+    have hb0 : (P.led.syncedTo == 0) = false := by simpa using h0
+    rw [hb0, Bool.false_or] at ht
+    cases hb : env.node.blockAt P.led.syncedTo with
+    | none => rw [hb] at ht; simp at ht
+    | some x =>
+      rw [hb] at ht
+      have hs : AMap.get P.led.sync P.led.syncedTo = some x.id := by simpa using ht
+      have hbest : (bootVol P).led.best.hash = x.id := by simp [bootVol, hs]
+      simp [hbest]
+
+/-- Start (after the resync step) on a wallet that is caught up with the node: no fast-forward, no
+    catch-up, only the re-queue -/
+theorem startCore_quiet (env : Env) (n : Nat) (P : PStore) (V : PVol) (hq : env.node.tipHeight = P.led.syncedTo) :
+    startCore env n P V 0 = ⟨true, P, { V with tasks := requeue P }, 0⟩ := by
+  unfold startCore
   have hff : fastForward env n (env.node.tipHeight - Gen.Updates.ffGap) (env.node.tipHeight + 1) (P.led.syncedTo + 1) P V 0
       = (⟨true, P, V, 0⟩, P.led.syncedTo + 1) := by
     unfold fastForward
@@ -237,6 +259,14 @@ theorem start_quiet (env : Env) (n : Nat) (P : PStore) (V : PVol) (hq : env.node
   simp only [hff]
   split_ifs <;> simp_all
 
+/-- Start on a freshly booted wallet that is caught up with the node -/
+theorem start_quiet (env : Env) (n : Nat) (P : PStore) (hq : env.node.tipHeight = P.led.syncedTo)
+    (ht : tipOnB env P = true) :
+    start env n P (bootVol P) = ⟨true, P, { bootVol P with tasks := requeue P }, 0⟩ := by
+  unfold start
+  rw [resync_boot_noop env n P ht (by omega)]
+  simp [startCore_quiet env n P (bootVol P) hq]
+
 theorem vEq_refl (V : PVol) : VEq V V := ⟨rfl, rfl⟩
 theorem vEq_symm {V1 V2 : PVol} (h : VEq V1 V2) : VEq V2 V1 := ⟨h.1.symm, h.2.symm⟩
 theorem vEq_trans {V1 V2 V3 : PVol} (h : VEq V1 V2) (h' : VEq V2 V3) : VEq V1 V3 := ⟨h.1.trans h'.1, h.2.trans h'.2⟩
@@ -245,10 +275,10 @@ theorem crash_quiet_rel (n : Nat) (s1 s2 : Sys) (hq : quiet s1 = true) (hr : Cra
     CrashRel (stepEv n true s1 .crash) (stepEv n false s2 .crash) := by
   unfold quiet at hq
   simp only [Bool.and_eq_true, decide_eq_true_eq] at hq
-  obtain ⟨⟨hb, hk⟩, ht⟩ := hq
+  obtain ⟨⟨⟨hb, hk⟩, ht⟩, hton⟩ := hq
   have hb' := (bestInvB_iff _ _).1 hb
   simp only [stepEv, Model.Persist.crash, if_true]
-  rw [start_quiet s1.env n s1.P (bootVol s1.P) ht]
+  rw [start_quiet s1.env n s1.P ht hton]
   refine ⟨hr.1, hr.2.1, ?_⟩
   have h1 : VEq s1.V (bootVol s1.P) := boot_vEq s1.P s1.V hb' hk
   have h2 : VEq ({ bootVol s1.P with tasks := requeue s1.P }) (bootVol s1.P) := ⟨rfl, rfl⟩
@@ -349,15 +379,26 @@ theorem crashesQuiet_blocks (n : Nat) : ∀ (bs : List Block) (s : Sys), crashes
   | nil => intro s; rfl
   | cons b bs ih => intro s; simp only [List.map, crashesQuiet]; exact ih _
 
-/-- Start without the fast-forward: the catch-up loop from synced-to + 1, then the re-queue -/
-theorem start_noff (env : Env) (n : Nat) (P : PStore) (V : PVol)
+/-- Start (after the resync step) without the fast-forward: the catch-up loop from synced-to + 1, then
+    the re-queue -/
+theorem startCore_noff (env : Env) (n : Nat) (P : PStore) (V : PVol)
     (hnf : (!(!(readyWallets P.led (walletsOf V.keys)).isEmpty) && decide (env.node.tipHeight > Gen.Updates.ffGap)) = false) :
-    start env n P V =
+    startCore env n P V 0 =
       (let r2 := catchUp env n (env.node.tipHeight + 1) (P.led.syncedTo + 1) P V 0
        if !r2.ok then r2 else { r2 with V := { r2.V with tasks := requeue r2.P } }) := by
-  unfold start
+  unfold startCore
   simp only [hnf]
   simp
+
+theorem start_noff (env : Env) (n : Nat) (P : PStore)
+    (hnf : (!(!(readyWallets P.led (walletsOf (bootVol P).keys)).isEmpty) && decide (env.node.tipHeight > Gen.Updates.ffGap)) = false)
+    (ht : tipOnB env P = true) (hle : P.led.syncedTo ≤ env.node.tipHeight) :
+    start env n P (bootVol P) =
+      (let r2 := catchUp env n (env.node.tipHeight + 1) (P.led.syncedTo + 1) P (bootVol P) 0
+       if !r2.ok then r2 else { r2 with V := { r2.V with tasks := requeue r2.P } }) := by
+  unfold start
+  rw [resync_boot_noop env n P ht hle]
+  simp [startCore_noff env n P (bootVol P) hnf]
 
 -- ------------------------------------------------------------------ the follower's own retry (next notification)
 
